@@ -78,7 +78,7 @@ class PROP(PropCheck):
         if tier != "quick":
             for o1, o2 in itertools.product(OPS, OPS):
                 out.append(Case(program([self.expand(o1, rng), self.expand(o2, rng)]), meta={"steps": 2}))
-        n = (500 if tier == "quick" else 20000) * scale
+        n = (500 if tier == "quick" else 6000) * scale
         for _ in range(n):
             k = rng.randint(2, 4 if tier == "quick" else 30)
             out.append(Case(program([self.expand(rng.choice(OPS), rng) for _ in range(k)]), meta={"steps": k}))
